@@ -141,9 +141,32 @@ pub struct Field {
     pub depth: u8,
 }
 
+/// what a declared length belongs to
+#[derive(Clone, Copy, Debug, PartialEq, Eq)]
+pub enum LenKind {
+    Prim,
+    Seq,
+    Item,
+    /// basic offset table item of encapsulated pixel data
+    Bot,
+    /// pixel data fragment item
+    Frag,
+}
+
+/// one declared length of the stream, in stream order
+#[derive(Clone, Copy, Debug)]
+pub struct LenRec {
+    pub off: usize,
+    pub declared: u32,
+    pub kind: LenKind,
+    pub tag: Tag,
+}
+
 #[derive(Default, Clone, Debug)]
 pub struct Layout {
     pub fields: Vec<Field>,
+    /// every declared length (element, sequence, item, fragment), in stream order
+    pub lens: Vec<LenRec>,
 }
 
 struct Enc {
@@ -158,9 +181,55 @@ struct Enc {
     /// follow every odd `Raw` value by one pad byte that its declared length
     /// does not count ("odd length field, padded value" streams)
     hidden_pad: bool,
+    /// fragments of odd length are written as they are (followed by a hidden
+    /// pad byte when `hidden_pad`)
+    odd_frags: bool,
+    /// with `hidden_pad`: bit set chosen by the caller; a defined-length item or
+    /// sequence whose content is R > 0 bytes declares R - 1 (odd; a reader that
+    /// rounds odd lengths up lands on R) when its bit is set
+    odd_containers: u64,
 }
 
 impl Enc {
+    fn sub(&self, depth: u8) -> Enc {
+        Enc {
+            out: Vec::new(),
+            be: self.be,
+            explicit: self.explicit,
+            layout: Layout::default(),
+            depth,
+            force_undef: self.force_undef,
+            hidden_pad: self.hidden_pad,
+            odd_frags: self.odd_frags,
+            odd_containers: self.odd_containers,
+        }
+    }
+    /// note the length field pushed last
+    fn len_rec(&mut self, kind: LenKind, tag: Tag, declared: u32) {
+        let off = self.layout.fields.last().map(|f| f.off).unwrap_or(0);
+        self.layout.lens.push(LenRec { off, declared, kind, tag });
+    }
+    fn merge(&mut self, inner: Enc) {
+        let base = self.out.len();
+        self.out.extend_from_slice(&inner.out);
+        for mut f in inner.layout.fields {
+            f.off += base;
+            self.layout.fields.push(f);
+        }
+        for mut l in inner.layout.lens {
+            l.off += base;
+            self.layout.lens.push(l);
+        }
+    }
+    fn container_len(&self, real: usize, undef: bool) -> u32 {
+        if undef {
+            return UNDEF;
+        }
+        if self.hidden_pad && real > 0 && real % 2 == 0 && (self.odd_containers >> ((real / 2 + self.depth as usize) % 64)) & 1 == 1 {
+            return real as u32 - 1;
+        }
+        real as u32
+    }
     fn f(&mut self, kind: FieldKind, off: usize, len: usize) {
         self.layout.fields.push(Field {
             kind,
@@ -231,6 +300,8 @@ impl Enc {
             depth: 0,
             force_undef: None,
             hidden_pad: false,
+            odd_frags: false,
+            odd_containers: 0,
         };
         match p {
             Prim::Text(b) | Prim::Bytes(b) => e.out.extend_from_slice(b),
@@ -261,6 +332,7 @@ impl Enc {
             Val::Prim(p) => {
                 let b = self.prim_bytes(&el.vr, p);
                 self.header(el.tag, &el.vr, b.len() as u32)?;
+                self.len_rec(LenKind::Prim, el.tag, b.len() as u32);
                 let o = self.out.len();
                 self.out.extend_from_slice(&b);
                 self.f(FieldKind::Value, o, b.len());
@@ -271,27 +343,14 @@ impl Enc {
             Val::Seq { items, undef } => {
                 let undef = self.force_undef.unwrap_or(*undef);
                 // encode content first to know its length
-                let start_fields = self.layout.fields.len();
-                let mut inner = Enc {
-                    out: Vec::new(),
-                    be: self.be,
-                    explicit: self.explicit,
-                    layout: Layout::default(),
-                    depth: self.depth + 1,
-                    force_undef: self.force_undef,
-                    hidden_pad: self.hidden_pad,
-                };
+                let mut inner = self.sub(self.depth + 1);
                 for it in items {
                     inner.item(it)?;
                 }
-                let _ = start_fields;
-                self.header(el.tag, b"SQ", if undef { UNDEF } else { inner.out.len() as u32 })?;
-                let base = self.out.len();
-                self.out.extend_from_slice(&inner.out);
-                for mut f in inner.layout.fields {
-                    f.off += base;
-                    self.layout.fields.push(f);
-                }
+                let declared = self.container_len(inner.out.len(), undef);
+                self.header(el.tag, b"SQ", declared)?;
+                self.len_rec(LenKind::Seq, el.tag, declared);
+                self.merge(inner);
                 if undef {
                     let o = self.out.len();
                     self.tag(SEQ_DELIM);
@@ -308,12 +367,13 @@ impl Enc {
                 let o = self.out.len();
                 self.p32((bot.len() * 4) as u32);
                 self.f(FieldKind::ItemLen, o, 4);
+                self.len_rec(LenKind::Bot, el.tag, (bot.len() * 4) as u32);
                 for x in bot {
                     // offset table entries are always little endian in practice (only LE is legal here)
                     self.p32(*x);
                 }
                 for fr in frags {
-                    if fr.len() % 2 == 1 {
+                    if fr.len() % 2 == 1 && !self.odd_frags {
                         return Err("odd fragment".into());
                     }
                     let o = self.out.len();
@@ -322,9 +382,13 @@ impl Enc {
                     let o = self.out.len();
                     self.p32(fr.len() as u32);
                     self.f(FieldKind::ItemLen, o, 4);
+                    self.len_rec(LenKind::Frag, el.tag, fr.len() as u32);
                     let o = self.out.len();
                     self.out.extend_from_slice(fr);
                     self.f(FieldKind::Value, o, fr.len());
+                    if self.hidden_pad && fr.len() % 2 == 1 {
+                        self.out.push(0);
+                    }
                 }
                 let o = self.out.len();
                 self.tag(SEQ_DELIM);
@@ -336,28 +400,17 @@ impl Enc {
     }
     fn item(&mut self, it: &Item) -> Result<(), String> {
         let undef = self.force_undef.unwrap_or(it.undef);
-        let mut inner = Enc {
-            out: Vec::new(),
-            be: self.be,
-            explicit: self.explicit,
-            layout: Layout::default(),
-            depth: self.depth,
-            force_undef: self.force_undef,
-            hidden_pad: self.hidden_pad,
-        };
+        let mut inner = self.sub(self.depth);
         inner.elems(&it.elems)?;
         let o = self.out.len();
         self.tag(ITEM);
         self.f(FieldKind::ItemHeader, o, 4);
         let o = self.out.len();
-        self.p32(if undef { UNDEF } else { inner.out.len() as u32 });
+        let declared = self.container_len(inner.out.len(), undef);
+        self.p32(declared);
         self.f(FieldKind::ItemLen, o, 4);
-        let base = self.out.len();
-        self.out.extend_from_slice(&inner.out);
-        for mut f in inner.layout.fields {
-            f.off += base;
-            self.layout.fields.push(f);
-        }
+        self.len_rec(LenKind::Item, ITEM, declared);
+        self.merge(inner);
         if undef {
             let o = self.out.len();
             self.tag(ITEM_DELIM);
@@ -377,6 +430,15 @@ pub fn encode(elems: &[Elem], syn: Syntax, force_undef: Option<bool>) -> Result<
 /// `hidden_pad`: every odd `Raw` value is followed by a pad byte that its
 /// declared length does not count.
 pub fn encode_opts(elems: &[Elem], syn: Syntax, force_undef: Option<bool>, hidden_pad: bool) -> Result<(Vec<u8>, Layout), String> {
+    encode_odd(elems, syn, force_undef, hidden_pad, false, 0)
+}
+
+/// Streams with odd declared lengths. `odd_frags`: pixel data fragments of odd
+/// length are written as they are. `hidden_pad`: every odd value or fragment is
+/// followed by one byte its declared length does not count, and the
+/// defined-length items/sequences selected by `odd_containers` declare one
+/// byte less than their (even) content.
+pub fn encode_odd(elems: &[Elem], syn: Syntax, force_undef: Option<bool>, hidden_pad: bool, odd_frags: bool, odd_containers: u64) -> Result<(Vec<u8>, Layout), String> {
     let mut e = Enc {
         out: Vec::new(),
         be: syn.be(),
@@ -385,6 +447,8 @@ pub fn encode_opts(elems: &[Elem], syn: Syntax, force_undef: Option<bool>, hidde
         depth: 0,
         force_undef,
         hidden_pad,
+        odd_frags,
+        odd_containers,
     };
     e.elems(elems)?;
     Ok((e.out, e.layout))
@@ -402,6 +466,8 @@ pub fn declared_len(el: &Elem, syn: Syntax) -> Option<u32> {
                 depth: 0,
                 force_undef: None,
                 hidden_pad: false,
+                odd_frags: false,
+                odd_containers: 0,
             };
             Some(e.prim_bytes(&el.vr, p).len() as u32)
         }
@@ -836,12 +902,12 @@ fn one_text(t: &mut Tape, vr: &[u8; 2], latin1: bool) -> Vec<u8> {
         b"CS" => pick(t, &["ORIGINAL", "PRIMARY", "CT", "A_B 1", "M", "ISO_IR 100X"]),
         b"DA" => pick(t, &["20240131", "19991231", "20000229"]),
         b"DS" => pick(t, &["1.5", "-0.25", "1e3", "+12.500", "0", "3.141592653589793", "-1.5E-10"]),
-        b"DT" => pick(t, &["20240131235959.123456+0100", "2024", "202401311200", "20240131120000-0500", "20240131120000.5"]),
+        b"DT" => pick(t, &["20240131235959.123456+0100", "2024", "202401311200", "20240131120000-0500", "20240131120000.5", "20240131235959.123", "202401+0000"]),
         b"IS" => pick(t, &["1", "-123", "+7", "2147483647", "0"]),
         b"LO" => pick(t, &["ACME Medical", "x", "Long string with spaces, and punctuation!", "odd"]),
         b"PN" => pick(t, &["Doe^John", "Doe^John^^Dr.^Jr", "X", "Yamada^Tarou=a^b", "Single"]),
         b"SH" => pick(t, &["ACC-1", "S", "SIXTEEN CHARS 16", "odd"]),
-        b"TM" => pick(t, &["235959.123456", "1200", "09", "120000.5", "0101"]),
+        b"TM" => pick(t, &["235959.123456", "1200", "09", "120000.5", "0101", "070809", "235959.123"]),
         b"UC" => pick(t, &["Unlimited characters value", "u", "odd", "An even longer unlimited characters value with no practical limit at all"]),
         b"UI" => pick(t, &["1.2.840.10008.5.1.4.1.1.7", "1.2.3", "1.2.840.113619.2.1.1.1762861231.1.12345", "2.25.1", "1.2.3.4"]),
         b"UR" => pick(t, &["http://example.org/a/b?c=d", "urn:oid:1.2.3", "x:y"]),
